@@ -157,7 +157,7 @@ Section Generic.
     let tr := fst (handle cold c q) in
     ordered false false false tr = true
     /\ ((responds tr 200 LOk
-         /\ map ev_code (filter user_code tr) = [1; 2; 3; 4]
+         /\ map ev_code (filter user_code tr) = [1; 2; if q_cancel q then 5 else 3; 4]
          /\ exists tc cid r0, q_cursor q = Some tc /\ open_token SCursor tc = inr (cid, r0)
             /\ ((cold = false /\ cache_get c cid = Some (q_route q))
                 \/ exists tk, q_call q = Some tk /\ open_token SCall tk = inr (cid, q_route q)
@@ -165,7 +165,7 @@ Section Generic.
         \/ (exists l, responds tr 400 l /\ l <> LOk /\ filter user_code tr = []
             /\ (forall tc f, q_cursor q = Some tc -> open_token SCursor tc = inl f -> l = label_of SCursor f))).
   Proof.
-    unfold C12.handle, responds. destruct (q_cursor q) as [tc|] eqn:Eq.
+    unfold C12.handle, responds, run_user. destruct (q_cursor q) as [tc|] eqn:Eq.
     2:{ cbn. split; [reflexivity|]. right. exists LMissingState. repeat split; try discriminate. }
     destruct (open_token SCursor tc) as [f|[cid r0]] eqn:Eo.
     { cbn. split; [reflexivity|]. right. exists (label_of SCursor f). repeat split.
@@ -175,11 +175,11 @@ Section Generic.
     { intros tc' f' H1 H2. inversion H1; subst. congruence. }
     destruct (if cold then None else cache_get c cid) as [m|] eqn:Ec.
     { destruct cold; [discriminate|].
-      destruct (route_eqb m (q_route q)) eqn:Er; cbn.
-      - split; [reflexivity|]. left. repeat split.
-        exists tc, cid, r0. repeat split; auto. left. split; auto.
+      destruct (route_eqb m (q_route q)) eqn:Er; [destruct (q_cancel q)|]; cbn.
+      1,2: split; [reflexivity|]; left; repeat split;
+        exists tc, cid, r0; repeat split; auto; left; split; auto;
         destruct m, (q_route q); try discriminate; auto.
-      - split; [reflexivity|]. right. exists LWrongMethod. repeat split; try discriminate.
+      split; [reflexivity|]. right. exists LWrongMethod. repeat split; try discriminate.
         intros; exfalso; eauto. }
     destruct (q_call q) as [[|x tk]|] eqn:Ek.
     { cbn. split; [reflexivity|]. right. exists LMissingCall. repeat split; try discriminate. intros; exfalso; eauto. }
@@ -191,12 +191,11 @@ Section Generic.
     destruct (cid' =? cid) eqn:Ei.
     2:{ cbn. split; [reflexivity|]. right. exists LMalformed. repeat split; try discriminate. intros; exfalso; eauto. }
     apply N.eqb_eq in Ei; subst cid'.
-    destruct (route_eqb m (q_route q)) eqn:Er; cbn.
-    - split; [reflexivity|]. left. repeat split.
-      exists tc, cid, r0. repeat split; auto. right. exists (x :: tk). repeat split; auto.
-      + destruct m, (q_route q); try discriminate; auto.
-      + destruct cold; auto.
-    - split; [reflexivity|]. right. exists LWrongMethod. repeat split; try discriminate.
+    destruct (route_eqb m (q_route q)) eqn:Er; [destruct (q_cancel q)|]; cbn.
+    1,2: split; [reflexivity|]; left; repeat split;
+      exists tc, cid, r0; repeat split; auto; right; exists (x :: tk); repeat split; auto;
+      [destruct m, (q_route q); try discriminate; auto | destruct cold; auto].
+    split; [reflexivity|]. right. exists LWrongMethod. repeat split; try discriminate.
       intros; exfalso; eauto.
   Qed.
 
@@ -415,13 +414,13 @@ Proof.
       * rewrite (Hlab tc _ eq_refl Hs). reflexivity.
 Qed.
 
-Lemma spec_run_model strict_unused refs rt cold :
+Lemma spec_run_model strict_unused refs rt cold cn :
   forall ps c bm, strict_unused = true ->
-  spec_run refs cold bm ps (run strict_unused (table_of refs) refs rt cold c bm ps) = true.
+  spec_run refs cold bm ps (run strict_unused (table_of refs) refs rt cold cn c bm ps) = true.
 Proof.
   induction ps as [|[mc mk] ps IH]; intros c bm ->; [reflexivity|].
   cbn [run].
-  set (q := {| q_route := rt; q_cursor := present refs mc; q_call := present refs mk |}).
+  set (q := {| q_route := rt; q_cursor := present refs mc; q_call := present refs mk; q_cancel := cn |}).
   pose proof (pres_ok_model refs cold c q) as Hp.
   destruct (handle N (tbl_open (table_of refs)) true 0 cold c q) as [tr c'] eqn:Eh.
   cbn [fst] in Hp.
@@ -438,7 +437,7 @@ Proof. intro i. unfold spec_ok, model, model_with. now apply spec_run_model. Qed
 (* ---- before fix 99fee40: the text of an accepted token was not pinned down --------- *)
 Definition legacy_raw : bytes := Z.to_N tokver_cursor :: repeat 7 42.       (* 43 bytes: two padding characters *)
 Definition legacy_input (m : mut) : input :=
-  {| i_route := RProd; i_cold := false;
+  {| i_route := RProd; i_cold := false; i_cancel := false;
      i_refs := [{| r_text := b64enc legacy_raw; r_key := 0; r_slot := SCursor; r_pay := PCursor false 0 |}];
      i_warm := [(0, RProd)]; i_fams := [FOne m MNone] |}.
 
